@@ -90,5 +90,18 @@ def main(run):
                 run.violation(bad, "case: %s\nmodel: %s\nimpl : %s\n(original case: %s)\n" %
                               (small, a[0], b[0], ln), tag="tie%d" % nbad,
                               no_input=not in_scope(a[0]))
+    # exhaustive leaf sweep: every delta 0..65535 x boundary value lengths through
+    # coap_opt_encode + coap_opt_parse (the domain of C01_opt_roundtrip's delta is finite)
+    lens = [0, 13, 269] if run.tier == "quick" else [0, 1, 12, 13, 14, 268, 269, 270, 65804]
+    sweep = ["optrt %d %d" % (d, l) for l in lens for d in range(65536)]
+    sm, sc, scr = tie.run_both(model, drv, sweep)
+    sbad = [(sweep[i], sm[i], sc[i]) for i in range(len(sweep)) if sm[i] != sc[i]]
+    run.cov["leaf_sweep"] = {"cases": len(sweep), "exhaustive_over": "delta 0..65535 x value length in %s" % lens,
+                             "disagreements": len(sbad)}
+    run.cov["evaluations"] += len(sweep)
+    for ln, a, b in sbad[:2]:
+        nbad += 1
+        run.violation("option header codec differs from the proved model (leaf sweep)",
+                      "case: %s\nmodel: %s\nimpl : %s\n" % (ln, a, b), tag="sweep%d" % nbad)
     run.cov["disagreements"] = nbad
     run.cov["corpus_cases"] = len(corpus)
